@@ -326,7 +326,14 @@ Record class_merge_facts (c s m : aclass) : Prop := {
   cm_vis : c_vis m = c_vis c;          (* no class-level side mark on a class both sides have *)
   cm_inv : c_inv m = c_inv c ++
              match itf_marks (c_itfs m) (c_itfs c) (c_itfs s) with [] => [] | marks => [AItfs marks] end;
-  cm_rest : c_rest m = c_rest c
+  (* PermittedSubclasses: absent iff absent on both sides, else both lists merged like the interfaces *)
+  cm_perm : match c_perm c, c_perm s with
+            | None, None => c_perm m = None
+            | pc, ps => exists l, c_perm m = Some l /\
+                         mpo_res str_eqb (unwrap_or_default pc) (unwrap_or_default ps) = Ok l
+            end;
+  cm_rec : c_rec m = c_rec c;          (* record components: the client's *)
+  cm_rest : c_rest m = c_rest c        (* everything else: the client's *)
 }.
 
 Theorem class_merge_spec c s m : class_merge c s = OK m -> class_merge_facts c s m.
@@ -342,9 +349,66 @@ Proof.
   destruct (Bool.eqb (c_synth c) (c_synth s)) eqn:E8; cbn [obind] in H; [|discriminate].
   destruct (merge_inner _ _) as [inn| |] eqn:E9; cbn [obind] in H; try discriminate.
   injection H as <-. apply N.eqb_eq in E1, E2. apply str_eqb_eq in E3.
-  constructor; cbn [c_version c_access c_name c_super c_itfs c_fields c_methods c_vis c_inv c_rest]; auto.
+  constructor; cbn [c_version c_access c_name c_super c_itfs c_fields c_methods c_vis c_inv c_perm c_rec c_rest]; auto.
   - apply (mpo_res_mpo str_eqb str_eqb_ok).
   - destruct (itf_marks _ _ _); [symmetry; apply app_nil_r|reflexivity].
+  - unfold merge_perm. destruct (c_perm c) as [pc|], (c_perm s) as [ps|]; try reflexivity;
+      (eexists; split; [reflexivity|apply (mpo_res_mpo str_eqb str_eqb_ok)]).
+Qed.
+
+(* the record spelled out (Props/C13.v pins this form) *)
+Definition class_merge_facts_spelled (c s m : aclass) : Prop :=
+  (c_version m = c_version c /\ c_version c = c_version s) /\
+  (c_access m = c_access c /\ c_access c = c_access s) /\
+  (c_name m = c_name c /\ c_name c = c_name s) /\
+  c_super m = c_super c /\
+  mpo_res str_eqb (c_itfs c) (c_itfs s) = Ok (c_itfs m) /\
+  merge_members (c_fields c) (c_fields s) = OK (c_fields m) /\
+  merge_members (c_methods c) (c_methods s) = OK (c_methods m) /\
+  c_vis m = c_vis c /\
+  c_inv m = c_inv c ++ match itf_marks (c_itfs m) (c_itfs c) (c_itfs s) with [] => [] | marks => [AItfs marks] end /\
+  match c_perm c, c_perm s with
+  | None, None => c_perm m = None
+  | pc, ps => exists l, c_perm m = Some l /\ mpo_res str_eqb (unwrap_or_default pc) (unwrap_or_default ps) = Ok l
+  end /\
+  c_rec m = c_rec c /\
+  c_rest m = c_rest c.
+
+Lemma class_merge_facts_unfold c s m : class_merge_facts c s m <-> class_merge_facts_spelled c s m.
+Proof.
+  unfold class_merge_facts_spelled. split.
+  - intros [H1 H2 H3 H4 H5 H6 H7 H8 H9 H10 H11 H12]. repeat split; try assumption; try (apply H1); try (apply H2); try (apply H3).
+  - intros (H1 & H2 & H3 & H4 & H5 & H6 & H7 & H8 & H9 & H10 & H11 & H12). constructor; assumption.
+Qed.
+
+Theorem class_merge_spelled c s m : class_merge c s = OK m -> class_merge_facts_spelled c s m.
+Proof. intros H. apply class_merge_facts_unfold, class_merge_spec, H. Qed.
+
+(* permitted subclasses of a class both sides have: every permitted class of either side exactly
+   once, the client's order always kept, the server's when compatible *)
+Theorem permitted_merged c s m :
+  class_merge c s = OK m ->
+  let pc := unwrap_or_default (c_perm c) in let ps := unwrap_or_default (c_perm s) in
+  (c_perm m = None <-> c_perm c = None /\ c_perm s = None) /\
+  (forall l, c_perm m = Some l ->
+     subseq pc l /\ (compatible str_eqb pc ps -> subseq ps l) /\
+     (NoDup pc -> NoDup ps -> NoDup l /\ forall x, In x l <-> In x pc \/ In x ps)).
+Proof.
+  intros H pc ps. pose proof (cm_perm _ _ _ (class_merge_spec c s m H)) as P. subst pc ps.
+  assert (G : forall a b l, mpo_res str_eqb a b = Ok l ->
+            subseq a l /\ (compatible str_eqb a b -> subseq b l) /\
+            (NoDup a -> NoDup b -> NoDup l /\ forall x, In x l <-> In x a \/ In x b)).
+  { intros a b l R. split; [exact (mpo_order_a str_eqb str_eqb_ok a b l R)|].
+    split; [intros C; exact (proj2 (mpo_order str_eqb str_eqb_ok a b l C R))|].
+    intros Na Nb. destruct (mpo_exact_once str_eqb str_eqb_ok a b l Na Nb R) as (_ & N & Hin). split; assumption. }
+  destruct (c_perm c) as [pc|], (c_perm s) as [ps|].
+  - destruct P as (l & E & R). split; [rewrite E; split; [discriminate|intros (X & _); discriminate]|].
+    intros l' E'. rewrite E in E'. injection E' as <-. apply G, R.
+  - destruct P as (l & E & R). split; [rewrite E; split; [discriminate|intros (X & _); discriminate]|].
+    intros l' E'. rewrite E in E'. injection E' as <-. apply G, R.
+  - destruct P as (l & E & R). split; [rewrite E; split; [discriminate|intros (_ & X); discriminate]|].
+    intros l' E'. rewrite E in E'. injection E' as <-. apply G, R.
+  - split; [split; [intros _; split; reflexivity|intros _; exact P]|]. intros l E. rewrite P in E. discriminate.
 Qed.
 
 (* inside the hypotheses the class merge returns a class *)
@@ -398,7 +462,7 @@ Theorem interfaces_marked c s m :
     (forall sd i, In (sd, i) marks <-> (sd = Client /\ In i ci /\ ~ In i si) \/ (sd = Server /\ In i si /\ ~ In i ci)) /\
     c_inv m = c_inv c ++ match marks with [] => [] | _ => [AItfs marks] end.
 Proof.
-  intros Nc Ns H ci si mi. destruct (class_merge_spec c s m H) as [_ _ _ _ R _ _ _ Hinv _].
+  intros Nc Ns H ci si mi. destruct (class_merge_spec c s m H) as [_ _ _ _ R _ _ _ Hinv _ _ _].
   destruct (mpo_exact_once str_eqb str_eqb_ok ci si mi Nc Ns R) as (_ & N & Hin).
   split; [exact N|]. split; [exact Hin|].
   split; [exact (mpo_order_a str_eqb str_eqb_ok ci si mi R)|].
@@ -757,7 +821,7 @@ Proof. unfold both_sides. intros -> ->. intros [= <-]. reflexivity. Qed.
 
 Definition ex_member (n : N) (rest : N) : member := mkMember [102; n] [73] 1 false false [] rest.
 Definition ex_class (itfs : list str) (fields : list member) (rest : N) : aclass :=
-  mkClass 52 33 [65] (Some [79]) itfs fields [] false false None [] [] 0 0 rest.
+  mkClass 52 33 [65] (Some [79]) itfs fields [] false false None [] [] None 0 rest.
 (* client: A.class (differs from the server's), B.class (same bytes), a resource, a signature file;
    server: A.class, B.class, a bundled library class, a manifest *)
 Definition ex_client : jar :=
@@ -774,12 +838,19 @@ Definition ex_merged : list oentry :=
   [ mkOEntry (s_minecraft ++ [65] ++ s_class) 1
       (OParsed (mkClass 52 33 [65] (Some [79]) [[73;49];[73;57];[73;50];[73;51]]
          [ mkMember [102;49] [73] 1 false false [AEnv Client] 7; ex_member 50 7; mkMember [102;51] [73] 1 false false [AEnv Server] 7 ]
-         [] false false None [] [AItfs [(Server, [73;57])]] 0 0 1));
+         [] false false None [] [AItfs [(Server, [73;57])]] None 0 1));
     mkOEntry (s_minecraft ++ [66] ++ s_class) 2 (OVec 2);
     mkOEntry [112] 3 (OOther [1;2]);
     mkOEntry s_manifest 8 (OOther manifest_bytes) ].
 
+(* a sealed record class whose two versions permit [P] resp. [Q; P] and carry record components 5 resp. 6 *)
+Definition ex_sealed (perm : option (list str)) (rec rest : N) : aclass :=
+  mkClass 61 33 [65] (Some [79]) [] [] [] false false None [] [] perm rec rest.
+
 Definition nonvacuous : Prop :=
+  (* record components and permitted subclasses of a class both sides have are kept *)
+  class_merge (ex_sealed (Some [[80]]) 5 1) (ex_sealed (Some [[81];[80]]) 6 2) = OK (ex_sealed (Some [[81];[80]]) 5 1) /\
+  class_merge (ex_sealed None 5 1) (ex_sealed None 5 2) = OK (ex_sealed None 5 1) /\
   (* the witness of the repaired defect: b-only elements are interleaved *)
   mpo_res N.eqb [1;2;3] [1;9;2;3] = Ok [1;9;2;3] /\ compatible N.eqb [1;2;3] [1;9;2;3] /\
   (* without compatibility the second order cannot be kept *)
@@ -797,6 +868,7 @@ Qed.
 Theorem nonvacuous_holds : nonvacuous.
 Proof.
   unfold nonvacuous.
+  split; [vm_compute; reflexivity|]. split; [vm_compute; reflexivity|].
   split; [vm_compute; reflexivity|]. split; [vm_compute; reflexivity|]. split; [vm_compute; reflexivity|].
   split; [unfold compatible; vm_compute; discriminate|].
   split.
